@@ -229,6 +229,25 @@ class Program:
         self.p_int = rng.choice([0.0, 0.08, 0.15])
         self.evo = self.world["device"] == "evo"
 
+    def set_limits(self, sess):
+        """`labware.max_volume = ...` / `labware.min_volume = ...` after construction (public attributes): the
+        limits that count from then on are the new ones. Never below what a well already holds."""
+        from ..sim.geom import enc
+        from ..sim.world import snap
+        rng = self.rng
+        li = rng.randrange(len(sess.geos))
+        geo = sess.geos[li]
+        vols = [v for v in sess.volumes(li).values() if v == v and v != float("inf")]
+        top = max(vols + [0.0])
+        regime = self.world["regime"]
+        vmax = max(snap(geo.vmax * rng.choice([0.5, 0.8, 1.25, 2.0]), regime), top)
+        if vmax < top or vmax <= 0:
+            vmax = geo.vmax
+        vmin = rng.choice([0.0, geo.vmin, snap(0.05 * vmax, regime), snap(0.3 * vmax, regime), snap(min(vols + [vmax]), regime)])
+        if not 0 <= vmin < vmax:
+            vmin = 0.0
+        return {"op": "set_limits", "lab": li, "min": enc(float(vmin)), "max": enc(float(vmax))}
+
     def source(self, i, sess):
         if i >= self.n:
             return None
@@ -240,8 +259,12 @@ class Program:
             kinds += ["evo_aspirate", "evo_dispense"]
         kind = rng.choice(kinds)
         op = None
+        for gg, sg in zip(g.geos, sess.geos):
+            gg.vmin, gg.vmax = sg.vmin, sg.vmax  # limits may have been reassigned (set_limits)
         if r < 0.03:
             op = g.gen_misc()
+        elif r < 0.05:
+            op = self.set_limits(sess)
         elif fault and rng.random() < 0.12:
             op = g.gen_invalid(sess)
         elif kind in ("add", "remove", "aspirate", "dispense"):
@@ -268,6 +291,8 @@ class Program:
 def explore(rng, tier, stats):
     prog = Program(rng, tier)
     res = run_history(prog.world, prog.source, C02Oracle)
+    if any(o["op"] == "set_limits" for o in res.ops):
+        stats.probes["limits_reassigned"] += 1
     account(stats, prog.world, res, PROP)
     return res.violations
 
